@@ -165,7 +165,7 @@ structure Accessed (ds : DblSem) (h : Heap) (vars : Nat → Cell) (e : Nat → N
   sz : stored h'.heap h'.next b = 0
   inv : DInv h' vars (fun x => e x - cellCnt c x + cellCnt (.ptr b) x) g'
   val : g' b = coerce ds k (absCell g c)
-  frame : ∀ x, h.heap x ≠ none → (1 ≤ handles vars x ∨ 1 + cellCnt c x ≤ e x) → g' x = g x
+  frame : ∀ x, x < h.next → g' x = g x
   next_le : h.next ≤ h'.next
   next_ge : h'.next ≤ h.next + 1
   live : liveCount h' ≤ liveCount h + 1
@@ -268,8 +268,8 @@ theorem dinv_access (ds : DblSem) {h : Heap} {vars e g c} (hd : Held h vars e g 
         · have : ¬ h.next = x := fun y => ex y.symm
           simp only [ex, this, if_false]; omega
       · rw [hn1, upd_same]; exact a1
-      · intro x hx _
-        have : x ≠ h1.next := by rw [hn1]; intro ex; subst ex; exact hx hdead
+      · intro x hx
+        have : x ≠ h1.next := by rw [hn1]; omega
         exact upd_other _ _ _ _ this
       · rw [s3.next, alloc_next, hn1]; omega
       · rw [s3.next, alloc_next, hn1]; omega
@@ -294,7 +294,7 @@ theorem dinv_access (ds : DblSem) {h : Heap} {vars e g c} (hd : Held h vars e g 
       have hcnt := i.cnt b blk hb
       have hpe := hd.pend b
       simp [cellCnt_ptr] at hpe
-      refine ⟨h, b, g, by simp [accessCell, hc], ⟨blk, hb, href⟩, by omega, by omega, i.congr ?_, ?_, fun _ _ _ => rfl,
+      refine ⟨h, b, g, by simp [accessCell, hc], ⟨blk, hb, href⟩, by omega, by omega, i.congr ?_, ?_, fun _ _ => rfl,
         Nat.le_refl _, by omega, by omega⟩
       · intro x
         have := hd.pend x
